@@ -207,6 +207,15 @@ def run_registry(ctx):
         check(ctx, comp, cfg, op, rng, name=name, positive=positive or 'arccosh' in name, small=small)
         if group != 'func' and 'arccosh' not in name:
             wrapper_rules(ctx, name, op, rng, positive=positive, small=small)
+        if group == 'func' and (ctx.thorough or i % 3 == ctx.seed % 3 or 'comp(' in name):
+            # second derivatives: the gradient of a functional is an operator with a derivative of its own (the Hessian)
+            try:
+                gop = op.gradient
+                gop.derivative
+            except Exception:
+                gop = None
+            if gop is not None and not any(k in name for k in ('KullbackLeibler', 'Numerical')):
+                check(ctx, comp + '.gradient', cfg, gop, rng, name=name + '.gradient', positive=positive, small=small)
 
 
 def specials(rng):
